@@ -1,7 +1,7 @@
 """Admissible heuristics for LAO*/LRTDP workloads, described JSON-ably."""
 
 
-def gen_heuristic(rng, kinds=('const', 'exact', 'slack', 'slack_abs', 'noisy')):
+def gen_heuristic(rng, kinds=('const', 'zero', 'exact', 'slack', 'slack_abs', 'noisy')):
     k = rng.choice(kinds)
     return dict(kind=k, slack=rng.choice((0.5, 2.0, 1.0)), at_abs=rng.choice((0.0, 0.0, 3.0, -2.0, 7.5)),
                 noise_seed=rng.randrange(1 << 30))
@@ -23,6 +23,15 @@ def build_heuristic(h, view, Vstar):
         for s in range(view.N):
             tab[s] = c
         # "constant bound" is also applied to absorbing states (non-zero there) unless at_abs says otherwise
+        for s in view.absorbing:
+            tab[s] = c if h['at_abs'] == 0.0 else h['at_abs']
+    elif kind == 'zero':
+        # the classic optimistic constant: 0 is an upper bound as soon as no reward is positive;
+        # otherwise the smallest integer bound (exact ties with integer rewards are what it is for)
+        import math
+        c = 0.0 if rmax <= 0 else float(math.ceil(max(vmax, max(0.0, rmax) / (1 - g) if g < 1 else vmax)))
+        for s in range(view.N):
+            tab[s] = c
         for s in view.absorbing:
             tab[s] = c if h['at_abs'] == 0.0 else h['at_abs']
     elif kind == 'exact':
